@@ -34,3 +34,12 @@ Proof. reflexivity. Qed.
 Lemma T_C09_src_multi_mtu : src_multi_mtu =
   "{ ret := math.MaxInt for _, s := range mt.swarms { if m := s.MTU(); m < ret { ret = m } } return ret }"%string.
 Proof. reflexivity. Qed.
+
+(* multiswarm checks a Tell and an Ask against the MTU it reports (the minimum over its transports) *)
+Lemma T_C09_src_multi_ask : src_multi_ask =
+  "{ t, ok := ma.swarms[dst.Scheme] if !ok { return 0, ErrTransportNotExist } for _, s := range ma.swarms { if p2p.VecSize(data) > s.MTU() { return 0, p2p.ErrMTUExceeded } } return t.Ask(ctx, resp, dst.Addr, data) }"%string.
+Proof. reflexivity. Qed.
+
+Lemma T_C09_src_multi_tell : src_multi_tell =
+  "{ t, ok := mt.swarms[dst.Scheme] if !ok { return ErrTransportNotExist } if p2p.VecSize(data) > mt.MTU() { return p2p.ErrMTUExceeded } return t.Tell(ctx, dst.Addr, data) }"%string.
+Proof. reflexivity. Qed.
